@@ -350,7 +350,10 @@ def quit_histories(path, E, rng, tier, work):
                 r = session.run_session(pcfg, cfg, fn, load=True, quit_at_guess=g)
             sess.append({'lines': r['lines'], 'q': r['quit'], 'saved': sp, 'qn': g if r['quit'] else None})
             total += len(r['lines'])
-        sess.append(resume_to_end(path, fn))
+            if not r['quit']:
+                break           # ran to the end without a quit: nothing is saved, the history of quit/resume cycles is over
+        if sess[-1]['q']:
+            sess.append(resume_to_end(path, fn))
         res.append((sess, {'quit_after_guesses': plan, 'via': 'CrackingSession.run, scripted keyboard thread'}))
     return res
 
